@@ -150,6 +150,10 @@ def gen_netlist_doc(rng, max_modules: int = 10, max_nets: int = 10, kinds=None, 
         # legal identifiers that older YAML dialects read as booleans / nulls
         for k, w in enumerate(rng.sample(["NO", "Yes", "on", "Off", "y", "N", "No", "ON"], min(n, rng.randint(1, 3)))):
             names[k] = w
+    if rng.random() < 0.08:
+        # legal identifiers that Python's float() would parse
+        for k, w in enumerate(rng.sample(["inf", "nan", "Infinity", "NaN", "INF", "e5", "infinity"], min(n, rng.randint(1, 2)))):
+            names[n - 1 - k] = w
     for name in names:
         kind = rng.choice(kinds)
         m = gen_module(rng, fam, kind, sc)
